@@ -56,6 +56,15 @@ def okParts (res : String) : Option (String × String × String) :=
     some (v, f, rest)
   | _ => none
 
+/-- an observation without the rendered reports (`report=` / `sinkreport=` fields): known findings
+are attributed when the implementation behaves like the model of the pinned code in everything
+but the wording of reports (which C01 and C13 compare) -/
+def stripReports (obs : String) : String :=
+  "#".intercalate ((obs.splitOn "#").map fun half =>
+    "|".intercalate ((half.splitOn "|").filter fun f => !(f.startsWith "report=" || f.startsWith "sinkreport=")))
+
+def sameObs (a b : String) : Bool := stripReports a == stripReports b
+
 /-- The PEG oracle (C06 / C07 / C14 depending on the family). -/
 def pegOracle (prop : String) (c : Case) (impl : String) (modelObs : String) : String :=
   if !Spec.supported c.g then "SKIP grammar outside the PEG family" else
@@ -66,7 +75,7 @@ def pegOracle (prop : String) (c : Case) (impl : String) (modelObs : String) : S
   -- (parse start / sub) eagerly skips the tokens it rejects; they are gone when the filter is
   -- restored.  Attributed only when the grammar changes the filter and the implementation
   -- behaves exactly as the Lean model of the pinned code does.
-  let prop := if Spec.changesFilter c.g && impl == modelObs
+  let prop := if Spec.changesFilter c.g && sameObs impl modelObs
     then prop ++ ": F27-eager-skip-under-temporary-filter" else prop
   -- every application of the same parser object is judged: after a success the next one
   -- continues where the returned lexer stands, after a failure it starts from the same place
@@ -751,7 +760,7 @@ def run (fam : String) (fields : List String) : String × String :=
     -- a recorded finding is attributed only when the implementation behaves exactly as the Lean
     -- model of the pinned code does (the model reproduces every recorded finding): a changed
     -- behaviour inside the same class of inputs is reported as a violation of its own
-    let verdict := if impl == mo then verdict else
+    let verdict := if sameObs impl mo then verdict else
       (verdict.replace "F07r-flag-left-set-by-failed-recovery " "").replace "F21-bad-last-segment-without-abort-token " ""
     -- a run that does not terminate in the model either is C02's matter (finding F07r-hang), not a
     -- statement about where recovery resumes
